@@ -128,19 +128,48 @@ static void report_alloc(lzma_ret ret, const c09_counter *c)
 }
 
 // ---------------------------------------------------------------------------------------------------------------
-// "sets" = comma separated list of new limits tried, in order, whenever LZMA_MEMLIMIT_ERROR is returned:
-//   n = the amount lzma_memusage() reports at that moment, n-K, n+K, or an absolute number; "-" = empty list
-typedef struct { char *toks[64]; int n, pos; char *buf; } sets_t;
+// "sets" = [<pre>;]<reactions>
+//   <reactions> = comma separated list of new limits tried, in order, whenever LZMA_MEMLIMIT_ERROR is returned:
+//       n = the amount lzma_memusage() reports at that moment, n-K, n+K, or an absolute number; "-" = empty list
+//   <pre> = comma separated list of lzma_memlimit_set() calls made at fixed points of the run, whatever the decoder says:
+//       <tok>        before the first input byte (create -> memlimit_set -> decode)
+//       @<off>:<tok> before the first lzma_code() call made when total_in >= <off>   (offsets in non-decreasing order)
+//     every one of them is executed and printed as  P<value>=<ret>/<limit after>/<memusage after>
+typedef struct {
+	char *toks[64]; int n, pos; char *buf;
+	struct { uint64_t off; char *tok; } pre[32]; int npre, ppos; char *pbuf;
+} sets_t;
 
 static void sets_parse(sets_t *s, const char *str)
 {
-	s->n = 0; s->pos = 0; s->buf = strdup(str);
+	s->n = 0; s->pos = 0; s->npre = 0; s->ppos = 0; s->pbuf = NULL;
+	const char *semi = strchr(str, ';');
+	if (semi != NULL) {
+		s->pbuf = strndup(str, (size_t)(semi - str));
+		str = semi + 1;
+		if (strcmp(s->pbuf, "-") != 0) {
+			char *save = NULL;
+			for (char *t = strtok_r(s->pbuf, ",", &save); t != NULL && s->npre < 32; t = strtok_r(NULL, ",", &save)) {
+				uint64_t off = 0;
+				if (t[0] == '@') {
+					off = strtoull(t + 1, &t, 10);
+					if (*t == ':') ++t;
+				}
+				s->pre[s->npre].off = off;
+				s->pre[s->npre].tok = t;
+				++s->npre;
+			}
+		}
+	}
+	s->buf = strdup(str);
 	if (!strcmp(str, "-"))
 		return;
 	char *save = NULL;
 	for (char *t = strtok_r(s->buf, ",", &save); t != NULL && s->n < 64; t = strtok_r(NULL, ",", &save))
 		s->toks[s->n++] = t;
 }
+
+static void sets_free(sets_t *s) { free(s->buf); free(s->pbuf); }
 
 static uint64_t sets_value(const char *tok, uint64_t needed)
 {
@@ -150,6 +179,17 @@ static uint64_t sets_value(const char *tok, uint64_t needed)
 		return needed;
 	}
 	return hp_u64(tok);
+}
+
+// The scheduled lzma_memlimit_set() calls that are due at input position `total_in`.
+static void sets_apply_due(lzma_stream *strm, sets_t *s, uint64_t total_in)
+{
+	while (s->ppos < s->npre && s->pre[s->ppos].off <= total_in) {
+		uint64_t usage = lzma_memusage(strm);
+		uint64_t v = sets_value(s->pre[s->ppos++].tok, usage);
+		lzma_ret r = lzma_memlimit_set(strm, v);
+		printf("P%" PRIu64 "=%d/%" PRIu64 "/%" PRIu64 " ", v, (int)r, lzma_memlimit_get(strm), lzma_memusage(strm));
+	}
 }
 
 static uint32_t crc_acc;
@@ -180,6 +220,7 @@ static lzma_ret run_decoder(lzma_stream *strm, const uint8_t *in, size_t len, si
 			pos += n;
 		}
 		lzma_action action = pos >= len ? LZMA_FINISH : LZMA_RUN;
+		sets_apply_due(strm, sets, strm->total_in);
 		strm->next_out = outbuf;
 		strm->avail_out = out_window;
 		size_t in_before = strm->avail_in;
@@ -255,7 +296,7 @@ static void op_dec(hp_line *l)
 		}
 		u.in = strm.total_in; u.crc = crc_acc; u.peak = cnt.peak;
 		lzma_end(&strm);
-		free(s.buf);
+		sets_free(&s);
 	}
 	// limited run
 	c09_counter cnt; lzma_allocator al; c09_counter_init(&cnt, &al);
@@ -274,7 +315,7 @@ static void op_dec(hp_line *l)
 	printf(" end=%" PRIu64 "/%" PRIu64 " leak=%" PRIu64 "%s", usage_end, limit_end, cnt.live, cnt.bad_free ? " BADFREE" : "");
 	printf(" | out=%" PRIu64 " crc=%" PRIu32 " U=%d,%" PRIu64 ",%" PRIu64 ",%" PRIu32 ",%" PRIu64 "\n",
 			out_total, crc, (int)u.ret, u.in, u.out, u.crc, u.peak);
-	free(s.buf);
+	sets_free(&s);
 	free(in);
 }
 
@@ -318,7 +359,7 @@ static void op_decmt(hp_line *l, int o)
 		}
 		u.in = strm.total_in; u.crc = crc_acc; u.peak = cnt.peak;
 		lzma_end(&strm);
-		free(s.buf);
+		sets_free(&s);
 	}
 	c09_counter cnt; lzma_allocator al; c09_counter_init(&cnt, &al);
 	if (o == 3) {
@@ -349,7 +390,7 @@ static void op_decmt(hp_line *l, int o)
 	printf(" | hook=%d in=%" PRIu64 " out=%" PRIu64 " crc=%" PRIu32 " peak=%" PRIu64 " end=%" PRIu64 "/%" PRIu64 " leak=%" PRIu64 "%s U=%d,%" PRIu64 ",%" PRIu64 ",%" PRIu32 ",%" PRIu64 "\n",
 			have_hook, in_total, out_total, crc, peak, usage_end, limit_end, cnt.live, cnt.bad_free ? " BADFREE" : "",
 			(int)u.ret, u.in, u.out, u.crc, u.peak);
-	free(s.buf);
+	sets_free(&s);
 	free(in);
 }
 
@@ -378,7 +419,7 @@ static void op_idx(hp_line *l)
 	lzma_index_end(idx, &al);
 	printf(" leak=%" PRIu64 "%s | idxlive=%" PRIu64 " memused=%" PRIu64 " blocks=%" PRIu64 "\n", cnt.live, cnt.bad_free ? " BADFREE" : "",
 			idxlive, memused, blocks);
-	free(s.buf);
+	sets_free(&s);
 	free(in);
 }
 
@@ -398,52 +439,102 @@ static void op_idxbuf(hp_line *l)
 	free(in);
 }
 
-static void op_finfo(hp_line *l)
+// CRC32 over everything an application can read from a decoded lzma_index (Streams, Blocks, offsets, sizes, checks).
+static uint32_t index_digest(const lzma_index *idx)
 {
-	uint64_t limit = hp_u64(l->tok[1]);
-	size_t len; uint8_t *in = hp_hex(l->tok[3], &len);
-	c09_counter cnt; lzma_allocator al; c09_counter_init(&cnt, &al);
-	lzma_stream strm = LZMA_STREAM_INIT; strm.allocator = &al;
-	sets_t s; sets_parse(&s, l->tok[2]);
-	lzma_index *idx = NULL;
-	lzma_ret ret = lzma_file_info_decoder(&strm, &idx, limit, len);
-	printf("I%d/%" PRIu64 "/%" PRIu64 " ", (int)ret, lzma_memusage(&strm), lzma_memlimit_get(&strm));
-	// the whole file is given at once; seeking is done by the harness
-	strm.next_in = in; strm.avail_in = len;
-	uint64_t maxlive_over_usage = 0;
-	for (int iter = 0; ret == LZMA_OK && iter < 100000; ++iter) {
-		ret = lzma_code(&strm, LZMA_FINISH);
+	if (idx == NULL)
+		return 0;
+	uint32_t crc = 0;
+	uint64_t v[10];
+	v[0] = lzma_index_stream_count(idx); v[1] = lzma_index_block_count(idx); v[2] = lzma_index_file_size(idx);
+	v[3] = lzma_index_uncompressed_size(idx); v[4] = lzma_index_checks(idx); v[5] = lzma_index_total_size(idx);
+	crc = lzma_crc32((const uint8_t *)v, 6 * sizeof(v[0]), crc);
+	lzma_index_iter it;
+	lzma_index_iter_init(&it, idx);
+	while (!lzma_index_iter_next(&it, LZMA_INDEX_ITER_ANY)) {
+		v[0] = it.stream.number; v[1] = it.stream.block_count; v[2] = it.stream.compressed_offset;
+		v[3] = it.stream.padding; v[4] = it.block.number_in_file; v[5] = it.block.compressed_file_offset;
+		v[6] = it.block.uncompressed_file_offset; v[7] = it.block.unpadded_size; v[8] = it.block.uncompressed_size;
+		v[9] = it.stream.flags != NULL ? (uint64_t)it.stream.flags->check : 99;
+		crc = lzma_crc32((const uint8_t *)v, sizeof(v), crc);
+	}
+	return crc;
+}
+
+// One lzma_file_info_decoder run over a whole file in memory (seeking is done here). `quiet`: no event output.
+static lzma_ret finfo_run(lzma_stream *strm, lzma_index **idx, const uint8_t *in, size_t len, uint64_t limit, sets_t *s,
+		const c09_counter *cnt, bool quiet)
+{
+	lzma_ret ret = lzma_file_info_decoder(strm, idx, limit, len);
+	if (!quiet)
+		printf("I%d/%" PRIu64 "/%" PRIu64 " ", (int)ret, lzma_memusage(strm), lzma_memlimit_get(strm));
+	if (ret != LZMA_OK)
+		return ret;
+	sets_apply_due(strm, s, 0);       // create -> memlimit_set -> decode
+	strm->next_in = in; strm->avail_in = len;
+	for (int iter = 0; ret == LZMA_OK && iter < 1000000; ++iter) {
+		ret = lzma_code(strm, LZMA_FINISH);
 		if (ret == LZMA_SEEK_NEEDED) {
-			if (strm.seek_pos > len) { ret = LZMA_PROG_ERROR; break; }
-			strm.next_in = in + strm.seek_pos;
-			strm.avail_in = len - strm.seek_pos;
+			if (strm->seek_pos > len) { ret = LZMA_PROG_ERROR; break; }
+			strm->next_in = in + strm->seek_pos;
+			strm->avail_in = len - strm->seek_pos;
 			ret = LZMA_OK;
 			continue;
 		}
 		if (ret == LZMA_MEMLIMIT_ERROR) {
-			uint64_t needed = lzma_memusage(&strm);
-			printf("M%" PRIu64 "/%" PRIu64 "/%" PRIu64 "/%" PRIu64 " ", needed, lzma_memlimit_get(&strm), cnt.live, cnt.peak);
+			uint64_t needed = lzma_memusage(strm);
+			if (!quiet)
+				printf("M%" PRIu64 "/%" PRIu64 "/%" PRIu64 "/%" PRIu64 " ", needed, lzma_memlimit_get(strm), cnt->live, cnt->peak);
 			bool ok = false;
-			while (s.pos < s.n) {
-				uint64_t v = sets_value(s.toks[s.pos++], needed);
-				lzma_ret r = lzma_memlimit_set(&strm, v);
-				printf("S%" PRIu64 "=%d/%" PRIu64 "/%" PRIu64 " ", v, (int)r, lzma_memlimit_get(&strm), lzma_memusage(&strm));
+			while (s->pos < s->n) {
+				uint64_t v = sets_value(s->toks[s->pos++], needed);
+				lzma_ret r = lzma_memlimit_set(strm, v);
+				if (!quiet)
+					printf("S%" PRIu64 "=%d/%" PRIu64 "/%" PRIu64 " ", v, (int)r, lzma_memlimit_get(strm), lzma_memusage(strm));
 				if (r == LZMA_OK) { ok = true; break; }
 			}
 			if (ok) { ret = LZMA_OK; continue; }
 			break;
 		}
 	}
-	(void)maxlive_over_usage;
+	return ret;
+}
+
+static void op_finfo(hp_line *l)
+{
+	uint64_t limit = hp_u64(l->tok[1]);
+	size_t len; uint8_t *in = hp_hex(l->tok[3], &len);
+	// unlimited reference run (direct oracle: the final index must be the same)
+	int uret; uint32_t udig; uint64_t ustreams = 0, ublocks = 0, upeak;
+	{
+		c09_counter cnt; lzma_allocator al; c09_counter_init(&cnt, &al);
+		lzma_stream strm = LZMA_STREAM_INIT; strm.allocator = &al;
+		sets_t s; sets_parse(&s, "-");
+		lzma_index *idx = NULL;
+		uret = (int)finfo_run(&strm, &idx, in, len, UINT64_MAX, &s, &cnt, true);
+		udig = index_digest(idx);
+		if (idx != NULL) { ustreams = lzma_index_stream_count(idx); ublocks = lzma_index_block_count(idx); }
+		upeak = cnt.peak;
+		lzma_end(&strm);
+		lzma_index_end(idx, &al);
+		sets_free(&s);
+	}
+	c09_counter cnt; lzma_allocator al; c09_counter_init(&cnt, &al);
+	lzma_stream strm = LZMA_STREAM_INIT; strm.allocator = &al;
+	sets_t s; sets_parse(&s, l->tok[2]);
+	lzma_index *idx = NULL;
+	lzma_ret ret = finfo_run(&strm, &idx, in, len, limit, &s, &cnt, false);
 	printf("R%d peak=%" PRIu64 " end=%" PRIu64 "/%" PRIu64, (int)ret, cnt.peak, lzma_memusage(&strm), lzma_memlimit_get(&strm));
 	uint64_t memused = idx != NULL ? lzma_index_memused(idx) : 0;
 	uint64_t blocks = idx != NULL ? lzma_index_block_count(idx) : 0;
 	uint64_t streams = idx != NULL ? lzma_index_stream_count(idx) : 0;
+	uint32_t dig = index_digest(idx);
 	lzma_end(&strm);
-	printf(" idxlive=%" PRIu64 " memused=%" PRIu64 " streams=%" PRIu64 " blocks=%" PRIu64, cnt.live, memused, streams, blocks);
+	printf(" idxlive=%" PRIu64 " memused=%" PRIu64 " streams=%" PRIu64 " blocks=%" PRIu64 " dig=%" PRIu32, cnt.live, memused, streams, blocks, dig);
 	lzma_index_end(idx, &al);
-	printf(" leak=%" PRIu64 "%s\n", cnt.live, cnt.bad_free ? " BADFREE" : "");
-	free(s.buf);
+	printf(" leak=%" PRIu64 "%s FU=%d,%" PRIu64 ",%" PRIu64 ",%" PRIu32 ",%" PRIu64 "\n", cnt.live, cnt.bad_free ? " BADFREE" : "",
+			uret, ustreams, ublocks, udig, upeak);
+	sets_free(&s);
 	free(in);
 }
 
